@@ -63,7 +63,9 @@ fn main() {
     };
     std::fs::create_dir_all(&ctx.outdir).expect("create outdir");
     // silence panic messages of the implementation under test (they are outcomes, not noise)
-    std::panic::set_hook(Box::new(|_| {}));
+    if std::env::var_os("FU_PANIC_VERBOSE").is_none() {
+        std::panic::set_hook(Box::new(|_| {}));
+    }
     let mut sink = case::Sink::new(&ctx.outdir.join("cases.tsv"));
     let known = props::run(&ctx, &mut sink);
     sink.finish(&ctx.outdir.join("stats.json"));
